@@ -57,6 +57,30 @@ several handles) each one alone, each round once with the snapshot and once
 with the map reading first afterwards - and after each round every path is
 compared again: the map loads a new object and the snapshot has to yield
 that very object (phase ``after_handle_clear``).
+
+Flavour cases (part ``handle-and-map-flavours``)::
+
+    case    := 'I|' entries '^^' handles ';' maps  (a tree with a handle)
+    handles := plain | view | own | falsy | sized   (class of every handle)
+    maps    := base | dot                           (class of every map)
+
+The handles of the other parts are the plainest ``Handle`` subclass (only
+``load`` is overridden) and the maps are ``ResourceMap`` itself.  Here the
+same trees are built from user-style subclasses that only use the public,
+documented extension points: a handle that overrides ``__call__`` and
+post-processes what ``Handle`` caches (``view``), one that keeps its own
+store and overrides ``__call__`` / ``clear`` / ``cached`` (``own``), one
+whose truth value is False (``falsy``: ``__bool__``), one with a length - 0
+while nothing is loaded (``sized``: ``__len__``) - and a ``ResourceMap``
+subclass whose ``split_char`` is ``'.'`` (``dot``; its alphabet has a name
+containing ``'/'``).  Sequence: snapshot; every path by chained ``get`` on
+both sides while nothing is loaded; the full comparison (map reads first);
+the full comparison again (snapshot reads first: second read of everything);
+``get`` again; then the rounds of ``Handle.clear()`` of the reload parts,
+with a ``get`` walk right after each clear.  Wherever the tree description
+is cross-checked (phase ``fresh`` of every part) the composite path
+``split_char.join(names)`` is read from the root map by ``[]`` and ``get``
+and must be what the snapshot yields step by step (``composite_path``).
 """
 import keyword
 import re
@@ -72,6 +96,16 @@ HANDLE_KINDS = ('h', 's', 'u')
 # names asked for although no tree contains them
 FOREIGN = ('zz', 'z z', '_StaticSubmap__p')
 RESERVED = ('get', '_handle_names')     # excluded by the statement
+
+# flavour family (user-style Handle / ResourceMap subclasses): trees with at
+# least one handle within these bounds; the alphabet depends on the map class
+FLAV_NAMES = {'base': ('a', 'b', 'x y', '__p'),
+              'dot': ('a', 'x y', '__p', 'x/y')}
+FLAV_BOUNDS = {'quick': (3, 3), 'thorough': (3, 4)}   # per map, in total
+FLAV_SEP = '^^'
+# (handles, maps); (plain, base) is what all the other parts run
+FLAVOURS = (('view', 'base'), ('own', 'base'), ('falsy', 'base'),
+            ('sized', 'base'), ('plain', 'dot'), ('view', 'dot'))
 
 RULE = ('E3: every resource tree of depth <= 3 over the names '
         f'{list(NAMES)} (distinct among siblings; a node is a handle in the '
@@ -124,7 +158,26 @@ RULE = ('E3: every resource tree of depth <= 3 over the names '
         'two orders (snapshot reads a name first, map reads it first) and '
         'after each round every path of the tree is compared again by [] / '
         'getattr / get with what the map yields now (a newly loaded '
-        'object).  A reload case is distinct by its tree.')
+        'object).  A reload case is distinct by its tree.  In every part, '
+        'wherever the freshly built / freshly edited map is cross-checked, '
+        'each path is also read from the root map in one composite key '
+        '(names joined by its split_char) by [] and by get and compared '
+        'with what the snapshot yields step by step.  Part '
+        '"handle-and-map-flavours": every tree with at least one handle of '
+        'depth <= 3 over the alphabet of its map class (part parameter '
+        'alphabets; bounds in the part parameters), populator style '
+        f'layering, x every pair of {[list(f) for f in FLAVOURS]} = (class '
+        'of all handles, class of all maps): handles overriding __call__ '
+        '(view: post-processed result; own: own store, clear and cached '
+        'overridden too), falsy handles (__bool__; __len__ that is 0 while '
+        'nothing is loaded), a ResourceMap subclass with split_char "." '
+        'whose alphabet has a name containing "/".  Sequence per case: '
+        'get_static_map(); every path by chained get() on both sides (and '
+        'the composite key) with nothing loaded; full comparison with the '
+        'map reading first (absent names included); full comparison again '
+        'with the snapshot reading first; the get walk again; the rounds '
+        'of Handle.clear() of the reload parts with the get walk after '
+        'each clear.  A flavour case is distinct by (tree, flavour pair).')
 
 # A family is the union of one or more (alphabet, nodes per map, nodes in
 # total) boxes; a later box only contributes the trees that use a name the
@@ -279,6 +332,89 @@ class THandle(desper.Handle):
         return f'<THandle {self.label}>'
 
 
+class ViewHandle(THandle):
+    """Overrides the public entry point ``__call__``: hands out a
+    post-processed view of what Handle's own caching holds (one view per
+    loaded object, so that identity stays meaningful)."""
+    _view_of = None
+    _view = None
+
+    def __call__(self):
+        raw = super().__call__()
+        if self._view is None or self._view_of is not raw:
+            self._view_of = raw
+            self._view = Res(self.label + '#view', raw.serial)
+        return self._view
+
+
+class OwnCacheHandle(THandle):
+    """Keeps the loaded object in a store of its own: ``__call__``,
+    ``clear`` and ``cached`` are overridden, Handle's cache is never used."""
+    _own = None
+
+    def __call__(self):
+        if self._own is None:
+            self._own = self.load()
+        return self._own
+
+    def clear(self):
+        self._own = None
+
+    @property
+    def cached(self):
+        return self._own is not None
+
+
+class FalsyHandle(THandle):
+    """A handle whose truth value is False (``__bool__``)."""
+
+    def __bool__(self):
+        return False
+
+
+class SizedHandle(THandle):
+    """A sized handle: 0 while nothing is loaded (falsy), 2 afterwards."""
+
+    def __len__(self):
+        return 2 if self.cached else 0
+
+
+class DotMap(desper.ResourceMap):
+    """A ResourceMap subclass with its own delimiter (names may then
+    contain '/')."""
+    split_char = '.'
+
+
+HANDLE_FLAVOURS = {'plain': THandle, 'view': ViewHandle,
+                   'own': OwnCacheHandle, 'falsy': FalsyHandle,
+                   'sized': SizedHandle}
+MAP_FLAVOURS = {'base': desper.ResourceMap, 'dot': DotMap}
+
+
+class Raised:
+    """What the source map answered when it raised."""
+
+    def __init__(self, exc):
+        self.text = f'{type(exc).__name__}: {exc}'
+
+    def __repr__(self):
+        return f'<raised {self.text}>'
+
+
+def map_item(m, key):
+    try:
+        return m[key]
+    except Exception as exc:
+        return Raised(exc)
+
+
+def map_get(m, key):
+    try:
+        return m.get(key)
+    except Exception as exc:
+        return Raised(exc)
+
+
 class Node:
     """Reference description of one map of the tree."""
 
@@ -288,9 +424,10 @@ class Node:
         self.real = None        # the ResourceMap built for it
 
 
-def build(tree, style, path=()):
+def build(tree, style, path=(), handle_cls=THandle,
+          map_cls=desper.ResourceMap):
     node = Node(path)
-    m = desper.ResourceMap()
+    m = map_cls()
     node.real = m
     label = '/'.join(path)
     lower = {}
@@ -298,11 +435,12 @@ def build(tree, style, path=()):
     for name, kind, sub in tree:
         where = f'{label}/{name}' if label else name
         if kind in ('s', 'u'):
-            lower[name] = THandle(where + '#lower')
+            lower[name] = handle_cls(where + '#lower')
         if kind in ('h', 's'):
-            top[name] = THandle(where)
+            top[name] = handle_cls(where)
         if kind == 'm':
-            node.entries[name] = ('m', build(sub, style, path + (name,)))
+            node.entries[name] = ('m', build(sub, style, path + (name,),
+                                             handle_cls, map_cls))
         else:
             visible = top[name] if name in top else lower[name]
             node.entries[name] = ('h', visible, kind)
@@ -370,9 +508,14 @@ def describe(root):
 
 class Checker:
     def __init__(self, root, snapshot, phase, level=None,
-                 snapshot_first=False, absent=True):
+                 snapshot_first=False, absent=True, extra=None):
         self.root = root
         self.snap = snapshot
+        # flavour part: the (handles, maps) flavours; they and the phase are
+        # then the whole signature (one defect, few signatures)
+        self.extra = extra
+        self.sep = root.real.split_char
+        self.composite = 0      # composite-path reads of depth >= 2
         # 'fresh' | 'after_mutation_attempts' | 'after_handle_clear' (every
         # handle of the tree was cleared after the snapshot had been read)
         # | 'after_edit' (a new snapshot taken after an edit of the map;
@@ -400,6 +543,8 @@ class Checker:
             # whatever moved, moved because of a mutation attempt: one
             # signature per clause
             features = {'phase': self.phase}
+        if self.extra:
+            features = dict(self.extra, phase=self.phase)
         raise Violation(clause, detail, **features)
 
     def compare(self):
@@ -428,7 +573,7 @@ class Checker:
                         v_first = s_item[name]
                     except Exception:
                         v_first = _SKIPPED  # reported by the access below
-                    src = m[name]
+                    src = map_item(m, name)
                     if v_first is not _SKIPPED and v_first is not src:
                         self.fail('item_access',
                                   f'snapshot[{self.where(node)}][{name!r}] '
@@ -436,14 +581,9 @@ class Checker:
                                   f'map then gives {src!r}',
                                   name=name_class(name), node=entry[2])
                 else:
-                    src = m[name]
-                if fresh:
-                    full = '/'.join(node.path + (name,))
-                    if (src is not handle() or m.get(name) is not handle
-                            or self.root.real[full] is not src):
-                        raise HarnessError(
-                            f'ResourceMap itself disagrees with the tree '
-                            f'description at {full!r} (C11 territory)')
+                    # (a map that raises here is a Raised object: it fails
+                    # the identity comparisons below like any other answer)
+                    src = map_item(m, name)
             # -- item access
             self.calls += 1
             try:
@@ -487,11 +627,19 @@ class Checker:
                           name=name_class(name),
                           node=entry[2] if is_handle else 'm')
             if is_handle:
-                if v_get is not handle:
+                src_get = map_get(m, name)
+                if v_get is not src_get:
                     self.fail('get_access',
                               f'snapshot[{self.where(node)}].get({name!r}) '
-                              f'is {v_get!r}, map.get gives {handle!r}',
+                              f'is {v_get!r}, map.get gives {src_get!r}',
                               name=name_class(name), node=entry[2])
+                if fresh:
+                    self.composite_path(node, name, entry, v_item, v_get)
+                    if src is not handle() or src_get is not handle:
+                        raise HarnessError(
+                            f'ResourceMap itself disagrees with the tree '
+                            f'description at {self.where(node)}/{name} '
+                            f'(C11 territory)')
                 continue
             for form, v in (('item_access', v_item), ('attr_access', v_attr),
                             ('get_access', v_get)):
@@ -501,6 +649,8 @@ class Checker:
                     self.fail(form, f'{self.where(node)}/{name} is a '
                               f'sub-map but the snapshot yields {v!r}',
                               name=name_class(name), node='m')
+            if fresh:
+                self.composite_path(node, name, entry, v_item, v_get)
             self.visit(entry[1], v_item,
                        None if v_attr is _SKIPPED else v_attr, v_get)
 
@@ -538,6 +688,34 @@ class Checker:
             else:
                 if got is not None:     # None mirrors ResourceMap.get
                     self.absent_fail(node, 'get', name, ncls, got=got)
+
+    def composite_path(self, node, name, entry, v_item, v_get):
+        """"For every path ... as the map itself": the whole path in one
+        key (names joined by the split_char of the root map) read from the
+        root map by [] and by get against what the snapshot just yielded
+        step by step."""
+        full = self.sep.join(node.path + (name,))
+        if node.path:
+            self.composite += 2
+        kind = entry[2] if entry[0] == 'h' else 'm'
+        for form, got, want in (('item', map_item(self.root.real, full),
+                                 v_item),
+                                ('get', map_get(self.root.real, full),
+                                 v_get)):
+            if entry[0] == 'h':
+                ok = got is want
+            else:
+                ok = isinstance(got, desper.ResourceMap)
+                if ok and entry[1].real is not None and \
+                        got is not entry[1].real:
+                    raise HarnessError(
+                        f'ResourceMap: composite key {full!r} and single '
+                        f'steps reach different sub-maps (C11 territory)')
+            if not ok:
+                self.fail('composite_path',
+                          f'the map answers {got!r} to the composite key '
+                          f'{full!r} ({form}), step by step the snapshot '
+                          f'gives {want!r} there', form=form, node=kind)
 
     def absent_fail(self, node, form, name, ncls, exc=None, got=None):
         what = (f'raised {type(exc).__name__}: {exc}' if exc is not None
@@ -669,6 +847,17 @@ def run_reload_case(case):
         hits['append_style_layer'] = 1
     hits = {k: v for k, v in hits.items() if v}
 
+    calls += reload_rounds(root, snap, handles, hits)
+    return {'calls': calls, 'hits': hits, 'key': case}
+
+
+def reload_rounds(root, snap, handles, hits, extra=None):
+    """The rounds of reload_schedule on a snapshot that was read in full;
+    with ``extra`` (flavour part) every path is also read by get() on both
+    sides right after each clear, before anything is loaded again.
+    -> number of snapshot reads."""
+    calls = 0
+
     def hit(name, n=1):
         if n:
             hits[name] = hits.get(name, 0) + n
@@ -682,8 +871,13 @@ def run_reload_case(case):
             h.clear()       # the object map.get / snapshot.get hand out
         hit('handle_cleared_after_read',
             sum(1 for b in before if b is not _SKIPPED))
+        if extra is not None:
+            n, falsy = get_walk(root, snap, extra, 'after_handle_clear')
+            calls += n
+            hit('get_of_falsy_handle', falsy)
         chk = Checker(root, snap, 'after_handle_clear',
-                      snapshot_first=order == 'snapshot_first', absent=False)
+                      snapshot_first=order == 'snapshot_first', absent=False,
+                      extra=extra)
         chk.compare()
         calls += chk.calls + chk.attr_calls
         hit('resource_reloaded_after_clear',
@@ -692,10 +886,136 @@ def run_reload_case(case):
         hit('reload_' + order)
         hit('reload_clears_every_handle' if target is None
             else 'reload_clears_one_handle_of_several')
+    return calls
+
+
+# -- user-style Handle / ResourceMap subclasses ----------------------------
+def flavour_family(tier):
+    """Every tree with a handle of the flavour box x every flavour pair,
+    smallest trees first."""
+    per_map, total = FLAV_BOUNDS[tier]
+    out = []
+    for hf, mf in FLAVOURS:
+        out += [(case.count(':'), f'{case}{FLAV_SEP}{hf};{mf}')
+                for case in family([(FLAV_NAMES[mf], per_map, total)], 'I')
+                if any(f':{k}' in case for k in HANDLE_KINDS)]
+    out.sort(key=lambda c: c[0])        # stable: flavour order within a size
+    return [c for _, c in out]
+
+
+def get_walk(root, snap, features, state):
+    """Every path by chained get() on the snapshot against get() of the map
+    (one step, and the composite key on the root map); nothing is loaded by
+    this.  -> (snapshot reads, reads of a handle that is falsy just then)."""
+    static = desper.StaticResourceMap
+    sep = root.real.split_char
+    reads = falsy = 0
+
+    def fail(detail):
+        raise Violation('get_access', f'({state}) {detail}', **features,
+                        phase='get_' + state)
+
+    def visit(node, s):
+        nonlocal reads, falsy
+        where = '/'.join(node.path) or '<root>'
+        for name, entry in node.entries.items():
+            want = map_get(node.real, name)
+            full = sep.join(node.path + (name,))
+            comp = map_get(root.real, full)
+            reads += 1
+            try:
+                got = s.get(name)
+            except Exception as exc:
+                fail(f'snapshot[{where}].get({name!r}) raised '
+                     f'{type(exc).__name__}: {exc}; map.get gives {want!r}')
+            if entry[0] == 'h':
+                if not entry[1]:
+                    falsy += 1
+                if got is not want or got is not comp:
+                    fail(f'snapshot[{where}].get({name!r}) is {got!r}, '
+                         f'map.get gives {want!r} there and {comp!r} for the '
+                         f'composite key {full!r}')
+                if want is not entry[1]:
+                    raise HarnessError(
+                        f'ResourceMap.get disagrees with the tree '
+                        f'description at {where}/{name} (C11 territory)')
+                continue
+            if not isinstance(got, static) or \
+                    not isinstance(want, desper.ResourceMap) or \
+                    not isinstance(comp, desper.ResourceMap):
+                fail(f'{where}/{name} is a sub-map: snapshot.get gives '
+                     f'{got!r}, map.get {want!r}, composite key {full!r} '
+                     f'{comp!r}')
+            if want is not entry[1].real or comp is not want:
+                raise HarnessError(
+                    f'ResourceMap.get disagrees with the tree description '
+                    f'at {where}/{name} (C11 territory)')
+            visit(entry[1], got)
+
+    visit(root, snap)
+    return reads, falsy
+
+
+def run_flavour_case(case):
+    tree_case, _, tail = case.partition(FLAV_SEP)
+    hf, _, mf = tail.partition(';')
+    if hf not in HANDLE_FLAVOURS or mf not in MAP_FLAVOURS:
+        raise HarnessError(f'cannot parse case {case!r}')
+    style, tree = parse(tree_case)
+    root = build(tree, style, handle_cls=HANDLE_FLAVOURS[hf],
+                 map_cls=MAP_FLAVOURS[mf])
+    extra = dict(handles=hf, maps=mf)
+    snap = take_snapshot(root, **extra)
+    handles = [entry[1] for node in all_nodes(root)
+               for entry in node.entries.values() if entry[0] == 'h']
+    if not handles:
+        raise HarnessError(f'{case!r}: no handle')
+    hits = {'handle_flavour_' + hf: 1, 'map_flavour_' + mf: 1}
+
+    def hit(name, n=1):
+        if n:
+            hits[name] = hits.get(name, 0) + n
+
+    # nothing is loaded yet
+    n, falsy = get_walk(root, snap, extra, 'unloaded')
+    calls = 1 + n
+    hit('get_of_falsy_handle', falsy)
+    hit('get_of_unloaded_sized_handle', falsy if hf == 'sized' else 0)
+    # the map reads (= loads) first, the snapshot after it
+    first = Checker(root, snap, 'fresh', extra=extra)
+    first.compare()
+    # everything is loaded: second read of the snapshot, it reads first
+    second = Checker(root, snap, 'second_read', snapshot_first=True,
+                     absent=False, extra=extra)
+    second.compare()
+    calls += (first.calls + first.attr_calls + first.absent_calls
+              + second.calls + second.attr_calls)
+    hit('absent_name', first.absent_calls)
+    hit('composite_path', first.composite)
+    if mf != 'base':
+        hit('composite_path_custom_delimiter', first.composite)
+        hit('name_with_base_delimiter', sum(
+            1 for node in all_nodes(root) for name in node.entries
+            if desper.ResourceMap.split_char in name))
+    if hf == 'view':
+        # what __call__ hands out is not what load() made
+        hit('overridden_call_differs_from_loaded', sum(
+            1 for h in handles if h.cached and h() is not h._view_of))
+    if hf == 'own':
+        hit('handle_with_own_store_loaded', sum(
+            1 for h in handles if h.cached))
+    n, falsy = get_walk(root, snap, extra, 'loaded')
+    calls += n
+    hit('get_of_falsy_handle', falsy)
+    hit('get_of_loaded_sized_handle', sum(
+        1 for h in handles if hf == 'sized' and h.cached and h))
+    calls += reload_rounds(root, snap, handles, hits, extra=extra)
     return {'calls': calls, 'hits': hits, 'key': case}
 
 
 def run_case(case):
+    if FLAV_SEP in case:
+        return run_flavour_case(case)
     if EDIT_SEP in case:
         return run_edit_case(case)
     if RELOAD_SEP in case:
@@ -711,6 +1031,8 @@ def run_case(case):
     hits = describe(root)
     hits['mutation_attempt'] = chk.mutations
     hits['absent_name'] = chk.absent_calls
+    if chk.composite:
+        hits['composite_path'] = chk.composite
     if chk.attr_calls:
         hits['attr_walk'] = chk.attr_calls
     if style == 'A':
@@ -1145,6 +1467,27 @@ def edit_parts(tier):
     return d
 
 
+def flavour_params(tier):
+    per_map, total = FLAV_BOUNDS[tier]
+    return dict(
+        style='I', depth=DEPTH, nodes_per_map=per_map, nodes_total=total,
+        trees='those with at least one handle',
+        alphabets={k: list(v) for k, v in FLAV_NAMES.items()},
+        flavour_pairs=[list(f) for f in FLAVOURS],
+        handle_flavours={k: (v.__doc__ or 'only load() overridden').split(
+            '\n\n')[0].replace('\n    ', ' ')
+            for k, v in HANDLE_FLAVOURS.items()},
+        map_flavours={k: 'split_char ' + repr(v.split_char)
+                      + ('' if v is desper.ResourceMap else ' (subclass)')
+                      for k, v in MAP_FLAVOURS.items()},
+        handle_kinds=list(HANDLE_KINDS),
+        sequence='snapshot; get walk (nothing loaded); full comparison, '
+        'map reads first, absent names probed; full comparison, snapshot '
+        'reads first; get walk (loaded); reload rounds (as in the reload '
+        'parts) with a get walk after each clear',
+        signature='clause + (handles, maps, phase)')
+
+
 def reload_parts(tier):
     main, append = RELOAD_BOUNDS[tier]
     return {'reload-after-handle-clear': ('I', main),
@@ -1191,6 +1534,34 @@ def run(tier, rep):
         'clearing is done in rounds on one snapshot (all handles, then '
         'each alone; schedule in the part parameters), not in separate '
         'cases per round',
+        'composite paths (clause composite_path): "for every path ... as '
+        'the map itself" is read as covering the map\'s own composite keys: '
+        'root_map[split_char.join(names)] must be the object the snapshot '
+        'yields step by step, root_map.get(...) the handle snapshot.get '
+        'yields step by step, and a ResourceMap where the snapshot has a '
+        'sub-snapshot; a map that raises for a path the snapshot serves '
+        'counts as a disagreement of the mirror (whichever side is wrong).  '
+        'That two different sub-maps are reached is C11\'s (harness error)',
+        'snapshot.get is compared with what map.get answers for the same '
+        'name (identity), the tree description is only cross-checked '
+        'afterwards: a map whose get() hides a handle the snapshot hands '
+        'out violates "get yields the same handle objects"',
+        'part handle-and-map-flavours: the handle / map classes only use '
+        'documented extension points (Handle.__call__ / load / clear / '
+        'cached overridden, truth value via __bool__ / __len__, '
+        'ResourceMap.split_char overridden in a subclass; no private '
+        'attribute of desper is read or written).  All handles of a tree '
+        'have one class, all maps one class (6 pairs, not the full '
+        'product).  A view handle returns one view object per loaded '
+        'object, so identity with the map\'s answer is demanded as '
+        'everywhere; handles that return a new object on every call are '
+        'not explored.  Accepted: exactly what the map answers (identity) '
+        'for [] / getattr / get, by single steps and by composite key, in '
+        'the states nothing loaded / loaded / after Handle.clear().  '
+        'split_char set on an instance, sub-maps of a different class '
+        'than the root, and trees built through composite assignment are '
+        'not explored.  Signatures of this part are clause + (handles, '
+        'maps, phase)',
         'two ChainMap layers at most; sibling insertion order fixed (order '
         'of the alphabet)',
         'writing through snapshot.__dict__ / object.__setattr__ is not '
@@ -1241,7 +1612,15 @@ def run(tier, rep):
                      reload_clears_every_handle=1,
                      reload_clears_one_handle_of_several=1,
                      reload_of_layered_handle=1,
-                     map_driven_walk=1)
+                     map_driven_walk=1,
+                     composite_path=1, composite_path_custom_delimiter=1,
+                     name_with_base_delimiter=1,
+                     get_of_falsy_handle=1, get_of_unloaded_sized_handle=1,
+                     get_of_loaded_sized_handle=1,
+                     overridden_call_differs_from_loaded=1,
+                     handle_with_own_store_loaded=1,
+                     **{'handle_flavour_' + h: 1 for h, _ in FLAVOURS},
+                     **{'map_flavour_' + m: 1 for _, m in FLAVOURS})
     for part, (style, boxes) in parts(tier).items():
         cases = family(boxes, style)
         kernel.enumerate_cases(
@@ -1285,6 +1664,10 @@ def run(tier, rep):
                         + ' / '.join(RELOAD_ORDERS),
                         absent_names_probed=False),
             chunk=max(200, len(cases) // 400))
+    cases = flavour_family(tier)
+    kernel.enumerate_cases(
+        run_flavour_case, cases, rep, 'handle-and-map-flavours',
+        params=flavour_params(tier), chunk=max(100, len(cases) // 400))
 
 
 def replay(rec):
